@@ -292,6 +292,20 @@ theorem cst_lexM_modulo : (c : Cst) → c.lexM.filter keep = (c.lex.map normLex)
   | .bin l c1 _ op c2 _ r => by
     simp only [Cst.lexM, Cst.lex, List.map_append, List.map_cons, List.filter_append, List.filter_cons, cst_lexM_modulo l,
       cst_lexM_modulo r, map_normLex_lexGC, normLex]
+  | .ite c1 _ c c2 _ c3 _ t c4 _ c5 _ e => by
+    simp only [Cst.lexM, Cst.lex, List.map_append, List.map_cons, List.filter_append, List.filter_cons, cst_lexM_modulo c,
+      cst_lexM_modulo t, cst_lexM_modulo e, map_normLex_lexGC, normLex]
+    simp [keep, isBindDelim, kwIf, kwThen, kwElse]
+  | .has e c1 _ c2 _ attrs => by
+    simp only [Cst.lexM, Cst.lex, List.map_append, List.map_cons, List.filter_append, List.filter_cons, cst_lexM_modulo e,
+      map_normLex_lexGC, normLex]
+    have hattr : ∀ (l : List Text), List.map normLex (attrLex l) = attrLex l := by
+      intro l; induction l with
+      | nil => rfl
+      | cons x r ih => simp [attrLex, normLex, ih]
+    cases attrs with
+    | nil => simp [attrLex0, keep, isBindDelim]
+    | cons x r => simp [attrLex0, normLex, hattr, keep, isBindDelim]
 theorem items_lexM_modulo : (its : Items) → its.lexM.filter keep = (its.lex.map normLex).filter keep
   | .nil => rfl
   | .cmt _ t rest => by
@@ -310,8 +324,9 @@ theorem items_lexM_modulo : (its : Items) → its.lexM.filter keep = (its.lex.ma
 end
 
 /-- COMMENTS SURVIVE EXACTLY ONCE, IN ORDER, IN PLACE. For every well-formed file of the fragment
-    (containers, parentheses, function calls, `with e; body` and `assert e; body` with comments
-    anywhere but in the three gaps of the `with` / `assert` itself) in which no comment overtakes
+    (containers, parentheses, function calls, `with e; body`, `assert e; body`, selects, lambdas, unary and binary
+    operators, `if c then a else b`, has-attr `e ? a.b`, with comments anywhere but in the inner gaps of these
+    keyword / operator constructs themselves: `Cst.wf`) in which no comment overtakes
     another (`File.orderOk`: in item sequences, see `cex_comment_overtakes`; between function and
     argument of a call, `appOrderOk`, see `cex_call_comment_reordered`) and no comment follows an
     `assert` item (`!c.isAsrt || rest.noCmt`, see `cex_comment_after_assert`), the
